@@ -15,6 +15,7 @@ DECIDED = ("<Score as Ord>::cmp is extracted from MIR as a 5x5 decision table ov
            "mate greater, slower black mate greater, Raw by value), cmp==Equal iff structurally equal (PartialEq is the derived one), and "
            "partial_cmp == Some(cmp). The engine's users (is_better, update_cutoff, the alpha-beta cutoff test) resolve to these impls.")
 DECIDED = DECIDED + ' R5 `<`, `<=`, `>`, `>=` (and max/min/clamp) of Score are the provided methods, or overrides defined through cmp / partial_cmp that answer true exactly on the right orderings.'
+DECIDED = DECIDED + ' R90 premises re-run here: C12 C12.R1; C16 C16.R3.'
 NOT_DECIDED = "nothing of the statement; trusted: rustc's MIR for the impl, primitive integer ordering, the table extractor"
 EXPLANATION = ("Decision-table extraction (K4): constants and copies are propagated through the loop-free body, splitting only on enum discriminants; "
                "the resulting table is compared with the specification order on an abstraction that is exact because payloads are only ever compared.")
@@ -238,6 +239,15 @@ def _partial_none(P):
             r = s.get("r", {})
             if r.get("k") == "agg" and r.get("vn") == "Some":
                 r["vn"], r["v"], r["ops"] = "None", 0, []
+
+
+@rule("C14.R90", 'premises shared with other properties: C12 (C12.R1); C16 (C16.R3)')
+def r_premises_shared(ctx):
+    """This property's argument rests on these rules of other properties (what it calls is assumed to behave); they are re-run here so that a
+    breakage of one of them is reported by this property's own check as well."""
+    from analysis.runner import premise
+    premise(ctx, 'C12', ['C12.R1'] and set(['C12.R1']), 'a quicker mate outranks a slower one only if the payload of a mate score is the distance in plies')
+    premise(ctx, 'C16', ['C16.R3'] and set(['C16.R3']), 'scores cross the plugin boundary; the sentinels and mates no longer decode to themselves')
 
 
 CONTROLS = [
